@@ -29,8 +29,9 @@ META = {
             "after the last task end, WorkerId stable, final count, DEADLOCK/LIVELOCK watchdog). "
             "ORACLE on the implementation through mjSpec (the failing-input search): specs built from mjgen trees plus several "
             "meshes given as vertex/face arrays (first one large, others small, so completion order differs from index order), "
-            "builtin meshes, procedural textures + materials, a height field, delayed actuators, optional length-range "
-            "computation (second use of the pool): mj_saveModel bytes of  compile twice / compile of an mj_copySpec copy and of a "
+            "builtin meshes, procedural textures + materials, a height field, delayed actuators, a muscle rig whose length "
+            "ranges are computed through the pool (second use of the pool; mixed motor/muscle actuator lists), optionally "
+            "length ranges for all actuators: mj_saveModel bytes of  compile twice / compile of an mj_copySpec copy and of a "
             "copy of the copy / mj_copyModel / load(save) / usethread 0 and 1 (repeated, real threads) / mj_recompile of the "
             "unchanged spec  must all be identical; mj_recompile must keep time, qpos, qvel, act, ctrl, mocap (class "
             "saved-state-lost, always alarms) and also after an edit that appends a body. KNOWN FINDING C33-F1: the other "
@@ -39,7 +40,9 @@ META = {
             "NOT covered: qhull is stubbed in this build, so meshes are attached to non-colliding geoms (no convex hulls, no "
             "mesh collision data); file-based assets (PNG/OBJ/STL decoders) are not exercised; controlled schedules of the real "
             "compile tasks (the compile oracle runs real threads; only the queue protocol runs under the controlled scheduler); "
-            "lost wake-ups are outside the Coq model (watchdog only); uninitialised-memory nondeterminism.",
+            "lost wake-ups are outside the Coq model (watchdog only); uninitialised-memory nondeterminism; termination of "
+            "mj_compile (length-range cases run under a 90 s timeout: mj_setLengthRange does not terminate on unstable "
+            "simulations, counted in support.lengthrange_nonterminating).",
     "note": "Trusted: Coq kernel; hand-written model Model/UserPool.v; the shim scheduler (shim_atomic.h, c33_shim.h) and the mapping "
             "of log lines to model events in c33.py; drivers c33_pool.cc / c33_compile.cc; g++. All theorems closed under the "
             "global context.  Cites C02 (Proof/ParMapProof.v) and C31 (Proof/MJBProof.v decode_encode).",
@@ -64,9 +67,9 @@ def pool_cases(ctx):
     for n in ((1, 2, 3) if q else (1, 2, 3, 4, 5, 8)):
         for k in ((1, 2, 5, 9) if q else (1, 2, 3, 5, 9, 17, 40)):
             for mode in range(4):
-                for _ in range(4 if q else 15):
+                for _ in range(4 if q else 8):
                     add(n, [("S", k), ("W", 0)], mode)
-    for _ in range(40 if q else 800):
+    for _ in range(40 if q else 400):
         n = rng.choice((1, 2, 3, 4))
         ops = []
         for _ in range(rng.randrange(1, 6)):
@@ -225,6 +228,10 @@ def compile_cases(ctx):
             if rng.random() < 0.6:
                 feat |= b
         flags = rng.choice((0, 2, 4, 6, 16, 18, 20, 22, 8, 10))
+        if i % 2 == 0:
+            flags |= 32    # muscle rig: length ranges of the muscles through the pool (default LRopt.mode)
+            if i % 4 == 0:
+                feat |= 64  # mjgen actuators (motors etc.) come first in the actuator list
         if i % 5 == 4:
             flags |= 1     # length ranges through the pool (may fail to converge: such cases are skipped)
             feat |= 64
@@ -237,25 +244,42 @@ def compile_line(c):
     return "%d %d %d %d %d %d %d\n" % (c["seed"], c["feat"], c["nbody"], c["nmesh"], c["ntex"], c["flags"], c["reps"])
 
 
-def run_compile(ctx, exe, cases):
+def _run_compile_batch(ctx, exe, cases, timeout):
+    rc, out, err = ctx.run(exe, "".join(compile_line(c) for c in cases), timeout=timeout)
+    blocks = re.split(r"^CASE \d+\n", out, flags=re.M)[1:]
     res = []
-    i = 0
-    while i < len(cases):
-        rc, out, err = ctx.run(exe, "".join(compile_line(c) for c in cases[i:]), timeout=1200)
-        blocks = re.split(r"^CASE \d+\n", out, flags=re.M)[1:]
-        got = 0
-        for b in blocks:
-            ls = b.strip().split("\n")
-            end = [l for l in ls if l.startswith("END ")]
-            res.append((end[-1][4:].strip() if end else "CRASH rc=%s %s" % (rc, err.strip()[-300:]), ls))
-            got += 1
-            if not end:
-                break
-        if got == 0:
-            res.append(("CRASH rc=%s %s" % (rc, err.strip()[-300:]), []))
-            got = 1
-        i += got
-    return res[:len(cases)]
+    for b in blocks[:len(cases)]:
+        ls = b.strip().split("\n")
+        end = [l for l in ls if l.startswith("END ")]
+        if not end:
+            res.append(("TIMEOUT" if rc == -999 else "CRASH rc=%s %s" % (rc, err.strip()[-300:]), ls))
+            break
+        res.append((end[-1][4:].strip(), ls))
+    if not res:
+        res.append(("TIMEOUT" if rc == -999 else "CRASH rc=%s %s" % (rc, err.strip()[-300:]), []))
+    return res
+
+
+def run_compile(ctx, exe, cases):
+    """cases with length ranges (flags & 1) run one per process under a short timeout (mj_setLengthRange does not terminate
+    on unstable simulations: reported separately, not a C33 matter); the others in chunks, a chunk that is killed is
+    re-run case by case."""
+    res = [None] * len(cases)
+    plain = [i for i, c in enumerate(cases) if not (c["flags"] & 1)]
+    lr = [i for i, c in enumerate(cases) if c["flags"] & 1]
+    for k in range(0, len(plain), 6):
+        idx = plain[k:k + 6]
+        r = _run_compile_batch(ctx, exe, [cases[i] for i in idx], 300)
+        for i, x in zip(idx, r):
+            res[i] = x
+        redo = idx[len(r) - 1:] if r[-1][0] == "TIMEOUT" or r[-1][0].startswith("CRASH") else idx[len(r):]
+        for i in redo:
+            res[i] = _run_compile_batch(ctx, exe, [cases[i]], 200)[0]
+    for i in lr:
+        res[i] = _run_compile_batch(ctx, exe, [cases[i]], 90)[0]
+        if res[i][0] == "TIMEOUT":
+            res[i] = ("LRTIMEOUT", res[i][1])
+    return res
 
 
 def run(ctx):
@@ -327,16 +351,25 @@ def run(ctx):
             ccases = [rcase] if "nmesh" in rcase else []
         else:
             ccases = compile_cases(ctx)
+    if nviol and rcase is None:
+        # the work queue itself already violates the property on the controlled schedules (lost tasks / early return /
+        # deadlock): the threaded compiles of the oracle may hang, so they are not run
+        ctx.cov["support"]["compile_oracle"] = "skipped: the work-queue protocol run already reported %d violations" % nviol
+        ccases = []
     cres = run_compile(ctx, cexe, ccases) if ccases else []
     if len(cres) < len(ccases):
         ctx.broken.append(("correspondence", "driver c33_compile produced %d of %d results" % (len(cres), len(ccases)), ""))
     ncmp, nstate, nocompile, threaded, known = 0, 0, 0, 0, 0
+    lrhang = []
     assets = {"mesh": 0, "tex": 0, "hfield": 0}
     for c, (status, ls) in zip(ccases, cres):
         if status == "NOCOMPILE":
             nocompile += 1
             continue
-        if status.startswith("CRASH"):
+        if status == "LRTIMEOUT":
+            lrhang.append(c)
+            continue
+        if status.startswith("CRASH") or status == "TIMEOUT":
             ctx.violation("impl_violation", c, expected="compile / copy / recompile complete", observed=status, theorem="C33 oracle",
                           signature={"site": "mj_compile", "what": "crash"}, note=" | ".join(ls[-4:]))
             continue
@@ -387,6 +420,8 @@ def run(ctx):
     ctx.cov["correspondence_disagreements"] = len(fails)
     ctx.cov["support"]["oracle_violations_pool"] = nviol
     ctx.cov["support"]["known_finding_C33_F1_cases"] = known
+    ctx.cov["support"]["lengthrange_nonterminating"] = {"cases": len(lrhang), "first": lrhang[:2],
+                                                        "note": "mj_setLengthRange loops forever on an unstable length-range simulation (reported to the coordinator; not a C33 matter)"}
     ctx.cov["explanation"] = ("Work-queue theorems proved for every interleaving of the lock-step model and tied to user_threadpool.cc by replaying "
                               "%d implementation logs (%d events) in Coq; determinism / copy invariance searched by %d byte comparisons of saved "
                               "models and %d state comparisons" % (len(coq_cases), nevents, ncmp, nstate))
